@@ -335,9 +335,9 @@ fn write_file(path: &std::path::Path, bytes: &[u8]) {
 
 // (the two name pools overlap on purpose: the same name may be registered both as a
 // macro and as an operator; the two registrations are independent of each other)
-const MACRO_NAMES: &[&str] = &["bulk:7", "bulk:250", "m:a", "m:b", "m:c", "geo:in", "neu:out", "f:x", "f:y", "f:way", "f:way_too", "g:x", "g:last", "plainres", "rec:a", "addone", "shadow", "u:op"];
+const MACRO_NAMES: &[&str] = &["M:Up", "bulk:7", "bulk:250", "m:a", "m:b", "m:c", "geo:in", "neu:out", "f:x", "f:y", "f:way", "f:way_too", "g:x", "g:last", "plainres", "rec:a", "addone", "shadow", "u:op"];
 const FILE_MACROS: &[(&str, &str)] = &[("f", "x"), ("f", "y"), ("f", "way"), ("f", "way_too"), ("g", "x"), ("g", "last")];
-const OP_NAMES: &[&str] = &["addk", "shadow", "addone", "helmert", "noop", "u:op", "m:a", "geo:in", "plainres", "stack", "push", "pop", "pipeline"];
+const OP_NAMES: &[&str] = &["Shadow", "AddK", "addk", "shadow", "addone", "helmert", "noop", "u:op", "m:a", "geo:in", "plainres", "stack", "push", "pop", "pipeline"];
 
 fn gen_step(rng: &mut Rng) -> String {
     let base = match rng.weighted(&[14, 12, 10, 8, 22, 10, 4, 3, 3]) {
@@ -387,6 +387,11 @@ fn gen_def(rng: &mut Rng) -> String {
     // one of these names shadows them like any other built-in)
     if rng.chance(0.05) {
         return (*rng.pick(&["stack push=1", "push v_1", "pop v_1", "stack pop=1", "pipeline", "stack", "push", "pop"])).to_string();
+    }
+    // names are case sensitive, also when the definition is written in PROJ syntax
+    // (which only the Plain context translates)
+    if rng.chance(0.05) {
+        return (*rng.pick(&["Shadow", "AddK k=2", "M:Up", "shadow", "+proj=Shadow", "proj=AddK", "+proj=addk", "proj=addone", "+proj=Addone", "proj=Noop", "+proj=noop"])).to_string();
     }
     let n = match rng.weighted(&[55, 30, 15]) {
         0 => 1,
@@ -1116,13 +1121,16 @@ impl Engine for RegSim {
                     if let Some(parent) = path.parent() {
                         let _ = std::fs::create_dir_all(parent);
                     }
-                    match how % 3 {
+                    // What a reader makes of bytes that are not UTF-8 is left open (skip the
+                    // file, decode leniently, cut items out bytewise): the invalid file holds
+                    // no item at all, and a stand-alone resource file is made a directory instead
+                    match if file.ends_with(".md") { how % 3 } else if how % 3 == 1 { 0 } else { how % 3 } {
                         0 => {
                             let _ = std::fs::create_dir_all(&path);
                             rec.fault("directory_in_place_of_resource_file");
                         }
                         1 => {
-                            let _ = std::fs::write(&path, b"addone | \xff\xfe addone\n```geodesy:x\naddone\n```\n");
+                            let _ = std::fs::write(&path, b"\xff\xfe\x80 not a register \xc3\n");
                             rec.fault("invalid_utf8_in_resource_file");
                         }
                         _ => {
